@@ -399,10 +399,11 @@ PBadLeaf == /\ CanLeaf
                   /\ \E nm \in ArgSet \cap DOMAIN ArgDecl : \E d \in {-1, 1} : Len(ArgDecl[nm]) + d >= 0
                         /\ \E ix \in [1..(Len(ArgDecl[nm]) + d) -> Letters] : Push(Ent(ArgNd(nm, ix), 1, 1, 0))
                \/ /\ "unknown" \in Muts /\ \E ix \in {<<>>, <<"i">>} : Push(Ent(VarNd("zz", ix), 1, 1, 0))
+               \* (an array without any index is no rule breaker: version 1 reads `f(q)`, `q + q` with all axes omitted in some places)
                \/ /\ "index-count" \in Muts
-                  /\ \E nm \in VarSet : \E d \in {-1, 1} : Len(JVarTab[nm].sh) + d >= 0
+                  /\ \E nm \in VarSet : \E d \in {-1, 1} : Len(JVarTab[nm].sh) + d >= 1
                         /\ \E ix \in [1..(Len(JVarTab[nm].sh) + d) -> Letters] : Push(Ent(VarNd(nm, ix), 1, 1, 0))
-               \/ /\ "normal-count" \in Muts /\ \E ix \in {<<>>, <<"i", "j">>} : Push(Ent(Nd("normal", "n", ix, <<>>, <<>>), 1, 1, 0))
+               \/ /\ "normal-count" \in Muts /\ Push(Ent(Nd("normal", "n", <<"i", "j">>, <<>>, <<>>), 1, 1, 0))
             /\ UNCHANGED fin
 PWrap == /\ CanOp1 /\ L >= 1 /\ Grow1
          /\ \E w \in Wraps : Rep1(Ent(Nd(w, "", <<>>, <<Top.e>>, <<>>), 1, Top.nl, Top.no + 1))
